@@ -18,3 +18,37 @@ CHECKS["C14"] = dict(
  text="For all (m,C,G) under the representation invariant, all hbar>0, all angles, every ordered mode tuple at d<=3 (quick) / d<=4 (thorough): the xpxp/xxpp/complex/ladder representations agree with their definitions, setters and getters are mutually inverse, reduction and rotation commute with them, means scale with sqrt(hbar) and covariances with hbar, and purity / photon number / the arguments handed to the hbar-free click-probability and density-matrix kernels are identical polynomials at hbar and at hbar=1. Fidelity, parity, phase-shifter expectation (matrix inverse / eigenvalues) only by the bounded stand-in.",
  note="floats as reals; shapes enumerated; displaced branch at a generic point; kernels receiving hbar-free arrays assumed to have no other access to hbar (they take no config); bounded part: 6/40 random states x 4 hbar values, tol 1e-7",
 )
+SETUP_CMD = "/venv/bin/python vf/lean.py"
+ENGINES += [
+ {"name": "pyvc", "path": "vf/pyvc.py", "serves_properties": ["C06", "C14"],
+  "kind_free_text": "Python AST -> verification conditions: forward symbolic execution of the real function body (re-parsed on every run) against a sidecar contract; loops cut by invariants, calls by callee contracts, machine-range/bounds/division obligations; SMT-LIB to z3 5.1 / z3 4.8 / cvc5; lemma instances only through explicit ghost `use`"},
+ {"name": "frames", "path": "vf/frames.py + vf/cfg.py", "serves_properties": ["C11", "C12", "C20"],
+  "kind_free_text": "modifies-/reads-clauses decided on the AST: per-function strongest modifies clause by flow-sensitive provenance analysis with summaries to fixpoint; `restores` obligations as post-dominance on an exception-augmented CFG; process-global RNG reads by call-graph reachability"},
+ {"name": "lean-lemmas", "path": "lemmas/PiquassoLemmas.lean", "serves_properties": ["C06"],
+  "kind_free_text": "Lean 4 + Mathlib proofs of the binomial identities used as lemma instances by pyvc (absorb, pascal, symm, monotonicity, hockey step)"},
+]
+ENGINES[1]["serves_properties"] = ["C06", "C11", "C12", "C14", "C20"]
+CHECKS["C06"] = dict(
+ engine="pyvc + lean-lemmas + rtc", category="proof", design_ref="DESIGN.md 5/C06, 2.1, 2.5",
+ technique="pre/post-conditions and loop invariants on the real njit functions, VCs generated from the AST and discharged by z3/cvc5 with Lean-proved binomial lemmas; exhaustive bounded cross-check of engine and spec functions",
+ text="For ALL arguments in the stated 32-bit range: comb = C(n,k) with every intermediate inside int64; get_index_in_fock_space / _subspace = the combinatorial-number-system rank RK (spec function) with bounds, division and int64 obligations; cutoff_fock_space_dim and symmetric_subspace_cardinality equal their binomial formulas; the xxpp/xpxp index arrays are mutually inverse permutations for every d. The enumeration itself (partitions successor, rank-step lemma, bijection) is covered exhaustively only inside d<=7, cutoff<=9 (bosonic), d<=10 (fermionic) by the bounded cross-check.",
+ note="numba == Python up to integer width (width discharged by range obligations); S and RK defined by unfold equations; Lean statements transcribed by hand from the lemma table; partitions / nb_get_fock_space_basis / fermionic successor not yet under contract (bounded only)",
+)
+CHECKS["C11"] = dict(
+ engine="frames + rtc", category="proof", design_ref="DESIGN.md 5/C11, 2.2",
+ technique="reads-clauses by call-graph reachability on the real AST, relational seed-schedule contract (dask = sequential), closure analysis of per-shot callbacks; bounded reproducibility runs",
+ text="No function reachable from any simulation step reads or writes process-global random state (3 known findings where the tree violates this); the dask and sequential branches of both per-shot samplers call the same function on seed+idx for idx in range(shots) and collect positionally; callbacks handed to per-shot samplers draw from no captured generator; Config.copy shares rng without reseeding; Result.samples shuffles with a local Random. Same-seed reproducibility with interleaved Config creation and dask on/off only by the bounded stand-in; native job tiling (cppvc) not yet built.",
+ note="name-based call resolution (over-approximating); dask.compute positional; numpy Generator methods depend on generator state only; thread-count independence of numba prange reductions and of the native kernels is not covered by a contract in this version",
+)
+CHECKS["C12"] = dict(
+ engine="frames + rtc", category="proof", design_ref="DESIGN.md 5/C12, 2.2",
+ technique="modifies-clauses (inferred strongest write sets vs declared frames) on every exit path; restores-obligations as post-dominance on the exception-augmented CFG; fault injection at every line as replay/bounded stand-in",
+ text="For every path, normal or exceptional: the temporaries written on caller-owned instructions (modes, resolved params) are restored (post-dominance proof on the exception-augmented CFG); execute/validate/copy/export/from_dict write nothing else reachable from program, instructions, initial_state, config; none of the ~100 simulation steps writes through its instruction argument; no lru_cache'd array is written; constructors copy the caller's Config. Two genuine defects found by these obligations were fixed in /repo (f0e2cc9, ff76139); one known finding (Config reseeds global random on export/repr).",
+ note="provenance analysis is over-approximating and name-based; three declared fresh/constructor call results are assumptions; deepcopy assumed to share nothing; native pybind wrappers' write sets (pfaffian mutates its input) not yet under contract",
+)
+CHECKS["C20"] = dict(
+ engine="symtrace (symbolic operands) + frames", category="proof", design_ref="DESIGN.md 5/C20",
+ technique="operator tables and whitelist against the specification tables; per-node accept predicate decided exhaustively over all ast node classes; post-condition `Expression(src)(x) == CPython(src)(x)` checked as symbolic-trace equality for all operand values and all truth assignments per expression template",
+ text="The whitelist and operator tables equal the specification; _validate visits every node and accepts a node iff whitelisted (exhaustive over node classes, constant types, names); construction evaluates nothing; for every template of the grammar (376+ templates, leaves symbolic) and every truth assignment the real evaluator returns the same symbolic term and evaluates the same set of operator applications as CPython - same operator, operands, order and short-circuits for ALL outcome values.",
+ note="templates enumerated to a depth bound (the property's quantifier is bounded in depth); CPython is the reference semantics; comparison results identified with booleans; nested-comparison operands and hostile corpus only by bounded stand-ins",
+)
